@@ -20,8 +20,18 @@ def splitArrow (toks : List String) : List String × List String :=
   let post := (toks.dropWhile (· ≠ "=>")).drop 1
   (pre, post)
 
+/-- a numeric token (or comma-separated vector) holding a NaN or an infinity produced by the
+implementation: never a legal answer of the numerical operations of the models below -/
+def nonFinite (t : String) : Bool :=
+  (t.splitOn ",").any fun x => x = "nan" || x = "+inf" || x = "-inf"
+
+def numericModels : List String := ["g", "p", "m", "k", "r", "n", "v"]
+
 def dispatch (line : String) : String :=
   let (req, impl) := splitArrow (tokens line)
+  if (match req with | m :: _ => numericModels.contains m | [] => false) && (req ++ impl).any nonFinite then
+    "bad non-finite value (NaN or infinity) returned by the implementation"
+  else
   match req with
   | "g" :: args => Grid.handle args impl
   | "p" :: args => Poly.handle args impl
